@@ -45,9 +45,9 @@ Lemma verify_ok_inv p chain hashes :
     x_na leaf - x_nb leaf <= pMaxLife p /\ x_nb leaf <= 0 <= x_na leaf.
 Proof. apply verify_with_ok_inv. Qed.
 
-(* the hypothesis the proof forces about the chain: the certificate that is
-   inspected is the server's (the first): either the verifier looks at
-   rawCerts[0], or the chain has at most one entry *)
+(* when the inspected certificate is the server's (the first of the chain):
+   the verifier looks at rawCerts[0] (the current tree), or the chain has at
+   most one entry *)
 Definition inspects_server_cert (p : params) (chain : list xcert) : Prop :=
   pLeafLast p = 0 \/ (length chain <= 1)%nat.
 
@@ -83,12 +83,13 @@ Proof.
   apply z_of_vres_0 in E. eapply accept_diag_ok; eassumption.
 Qed.
 
-(* with the pinned tree's choice of certificate the clause fails: the chain
-   [unpinned, pinned] is accepted *)
+(* non-vacuity of the "server certificate" clause, about the parametric model: a
+   verifier that inspects the LAST certificate of the chain accepts
+   [unpinned; pinned], and the monitor rejects that acceptance *)
 Definition ex_unpinned : xcert := mkX 1 true false 0 (-3600 * SEC) (3600 * SEC).
 Definition ex_pinned : xcert := mkX 2 true false 0 (-3600 * SEC) (3600 * SEC).
 
-Lemma verify_chain_refuted_gen p : pLeafLast p <> 0 -> pMaxLife p = spec_max_validity ->
+Lemma last_cert_verifier_accepts_unpinned_chain p : pLeafLast p <> 0 -> pMaxLife p = spec_max_validity ->
   verify_raw_certs p [ex_unpinned; ex_pinned] [(SHA2_256, 2)] = VOk /\
   advertises [(SHA2_256, 2)] (x_hash ex_unpinned) = false /\
   monitor_verify [ex_unpinned; ex_pinned] [(SHA2_256, 2)]
@@ -154,4 +155,11 @@ Proof.
   rewrite (accept_diag_ok p chain addr Hm Hi Hv).
   cbn [andb]. replace (forallb (fun h => mh_mem h srv) addr) with true; [reflexivity|].
   symmetry. apply forallb_forall. intros h Hin. apply mh_mem_In, Hc, Hin.
+Qed.
+
+(* a verifier that inspects the first certificate refuses that chain *)
+Lemma first_cert_verifier_refuses_unpinned_chain p : pLeafLast p = 0 ->
+  verify_raw_certs p [ex_unpinned; ex_pinned] [(SHA2_256, 2)] = VMismatch.
+Proof.
+  intros Hr. unfold verify_raw_certs, verify_with, inspected. rewrite Hr. vm_compute. reflexivity.
 Qed.
